@@ -596,6 +596,16 @@ class List(list, base.Symbolic, pg_typing.CustomTyping):
           self._error_message('Cannot delete List item while accessor_writable '
                               'is set to False. '
                               'Use \'rebind\' method instead.'))
+    if isinstance(index, slice):
+      start, stop, step = self._parse_slice(index)
+      if step == 1:
+        # A contiguous slice is deleted as a whole (a single notification).
+        self[start:max(start, stop)] = []
+      else:
+        for i in sorted(range(start, stop, step), reverse=True):
+          del self[i]
+      return
+
     if not isinstance(index, numbers.Integral):
       raise TypeError(
           f'list index must be an integer. Encountered {index!r}.')
